@@ -17,13 +17,13 @@ for _a in ("_check_directory_structure_validity", "_make_path_function", "_make_
 
 CODE = ["signac.import_export._check_directory_structure_validity", "signac.import_export._export_jobs/_make_path_function/_make_schema_based_path_function/_check_path_function_unique",
         "signac.import_export._analyze_zipfile_for_import/_CopyFromZipFileExecutor", "signac.import_export._convert_schema_path_to_regex/RE_TYPES/_convert_bool"]
-BOUNDS = {"leafnode": "3 relative paths of 1-3 segments over {a, b, ab}, every order", "pathmap": "2-3 jobs, state points {a: v} / {a: v, ab: w} / {a: {b: v}} with v from the textually colliding domain "
+BOUNDS = {"leafnode": "3 relative paths of 1-3 segments over {a, b, ab, a.5}, every order", "pathmap": "2-3 jobs, state points {a: v} / {a: v, ab: w} / {a: {b: v}} with v from the textually colliding domain "
           "{1, 10, 1.0, '1', True, 'True', '1/x'}, path spec None / '{a}' style strings / '{{auto}}' variants", "zip": "2-3 job roots over {a/1, a/10, a/1x, a/1/2, b}, members = state point file + one data file (+ nested)"}
 OUTSIDE = ["compression codecs (C code)", "tar member analysis as a kernel (covered by the E4 round trip)", "more than 3 jobs in kernels"]
 STUBS = ["job stand-ins with id/sp()/statepoint/path for the export kernels; stub ZipFile (namelist/read) and in-memory open()/_mkdir_p for the zip kernel"]
 ASSUMPTIONS = []
 
-SEG = ["a", "b", "ab"]
+SEG = ["a", "b", "ab", "a.5"]     # "ab": prefix without separator; "a.5": a sibling that sorts between a node and its children ('.' < '/')
 
 
 def _path(n, s0, s1, s2):
@@ -42,11 +42,11 @@ def order_dependent_leafnode(paths):
 
 def h_leafnode(n0: int, a0: int, a1: int, a2: int, n1: int, b0: int, b1: int, b2: int, n2: int, c0: int, c1: int):
     """raises  <=>  some path is a proper ancestor (component-wise) of another, independent of the order"""
-    assert 1 <= n0 <= 3 and 1 <= n1 <= 3 and 0 <= n2 <= 2 and 0 <= a0 < 3 and 0 <= a1 < 3 and 0 <= a2 < 3 and 0 <= b0 < 3 and 0 <= b1 < 3 and 0 <= b2 < 3 and 0 <= c0 < 3 and 0 <= c1 < 3
-    assert part_ok(a0 * 3 + b0)
+    assert 1 <= n0 <= 3 and 1 <= n1 <= 3 and 0 <= n2 <= 2 and 0 <= a0 < 4 and 0 <= a1 < 4 and 0 <= a2 < 4 and 0 <= b0 < 4 and 0 <= b1 < 4 and 0 <= b2 < 4 and 0 <= c0 < 4 and 0 <= c1 < 4
+    assert part_ok(a0 * 4 + b0)
     # canonical encoding: unused segment indices are 0 (no duplicate cases)
     assert (n0 >= 2 or a1 == 0) and (n0 >= 3 or a2 == 0) and (n1 >= 2 or b1 == 0) and (n1 >= 3 or b2 == 0) and (n2 >= 1 or c0 == 0) and (n2 >= 2 or c1 == 0)
-    assert tier() != "quick" or n2 <= 1
+    assert tier() != "quick" or (n2 <= 1 and n0 <= 2)
     fresh_path()
     n0, n1, n2 = ci(n0, 1, 3), ci(n1, 1, 3), ci(n2, 0, 2)
     paths = [_path(n0, a0, a1, a2), _path(n1, b0, b1, b2)] + ([_path(n2, c0, c1, 0)] if n2 else [])
@@ -69,7 +69,7 @@ def h_leafnode(n0: int, a0: int, a1: int, a2: int, n1: int, b0: int, b1: int, b2
 
 
 def h_leafnode__reach(n0: int, a0: int, a1: int, a2: int, n1: int, b0: int, b1: int, b2: int, n2: int, c0: int, c1: int):
-    assert 1 <= n0 <= 3 and 1 <= n1 <= 3 and 0 <= n2 <= 2 and 0 <= a0 < 3 and 0 <= a1 < 3 and 0 <= a2 < 3 and 0 <= b0 < 3 and 0 <= b1 < 3 and 0 <= b2 < 3 and 0 <= c0 < 3 and 0 <= c1 < 3
+    assert 1 <= n0 <= 3 and 1 <= n1 <= 3 and 0 <= n2 <= 2 and 0 <= a0 < 4 and 0 <= a1 < 4 and 0 <= a2 < 4 and 0 <= b0 < 4 and 0 <= b1 < 4 and 0 <= b2 < 4 and 0 <= c0 < 4 and 0 <= c1 < 4
     paths = [_path(ci(n0, 1, 3), a0, a1, a2), _path(ci(n1, 1, 3), b0, b1, b2)]
     try:
         IE._check_directory_structure_validity(paths)
@@ -402,7 +402,7 @@ def h_roundtrip(mask: int, ti: int, si: int, schema_kind: int, deepsp: bool):
 
 HARNESSES = [
     dict(name="h_roundtrip", timeout=(900, 3000), parts=(16, 32), unblock=True),
-    dict(name="h_leafnode", twin="h_leafnode__reach", timeout=(400, 900), parts=(9, 9)),
+    dict(name="h_leafnode", twin="h_leafnode__reach", timeout=(600, 1500), parts=(16, 16)),
     dict(name="h_pathmap", twin="h_pathmap__reach", timeout=(400, 1500), parts=(14, 28), unblock=True),
     dict(name="h_zipskip", twin="h_zipskip__reach", timeout=(300, 600), unblock=True),
 ]
